@@ -14,6 +14,8 @@ import Pongo.Model.ParseDoc
 import Pongo.Gen.PanicSites
 import Pongo.Gen.FilterFacts
 import Pongo.Lemmas.KeepsAll
+import Pongo.Lemmas.LexPos
+import Pongo.Gen.LexTables
 
 namespace Pongo.C01
 open Pongo
@@ -77,6 +79,19 @@ theorem empty_cycle_is_rejected (cfg : SetCfg) (fuel : Nat) (args : PS) (es : Li
       else pure (Node.tagCycle 0 es asName silent)) ≠ .ok node := by
   intro node
   simp [h, hrem, hes, bind, Except.bind]
+
+/-! ### the lexer's loop always makes progress
+
+The model's `run` returns `.hang` where the Go loop would go round without consuming input (a
+marker of width 0, a tokenizer call that consumed nothing).  For the tables regenerated from
+`lexer.go` this never happens, for any source: every iteration consumes at least one byte, so
+lexing takes at most as many iterations as the source has bytes. -/
+
+theorem lexer_never_hangs (s : Bytes) : lex Gen.lexTables s ≠ .hang := by
+  intro h
+  have := lex_pos Gen.lexTables (by decide) (by decide) s
+  rw [h] at this
+  exact this
 
 /-! ### the interpreter never takes a panicking branch
 
